@@ -19,10 +19,10 @@ class PHP(SHarness):
     name = 'c01.php'
 
     def points(self, tier):
-        top = 4 if tier == 'quick' else 6
+        top = 4 if tier == 'quick' else 8
         for m in range(0, top + 1):
             for n in range(0, top + 1):
-                if tier != 'quick' and m * n > 30:
+                if tier != 'quick' and m * n > 42:
                     continue
                 for fn in (False, True):
                     for on in (False, True):
@@ -161,7 +161,7 @@ class BPHP(SHarness):
     name = 'c01.bphp'
 
     def points(self, tier):
-        mm, nn = (4, 6) if tier == 'quick' else (5, 9)
+        mm, nn = (4, 6) if tier == 'quick' else (6, 12)
         for m in range(0, mm + 1):
             for n in range(0, nn + 1):
                 for c in CLASSES:
@@ -256,7 +256,7 @@ class Counting(SHarness):
     name = 'c01.count'
 
     def points(self, tier):
-        top = 7 if tier == 'quick' else 9
+        top = 7 if tier == 'quick' else 10
         for M in range(0, top + 1):
             for q in range(1, 5):
                 for c in CLASSES:
@@ -302,6 +302,10 @@ class Matching(SHarness):
                 if c == 'OPB' and len(g['edges']) % 2 == 0 and g['n'] >= 4:
                     continue
                 yield dict(g, cls=c)
+        if tier != 'quick':
+            for i, g in enumerate(gen.graph_box(6, 6)):
+                if i % 16 == 5:
+                    yield dict(g, cls='CNF')
 
     def build(self, p):
         from cnfgen.families.counting import PerfectMatchingPrinciple
